@@ -114,6 +114,9 @@ impl Compiler {
         // TODO: maybe add a helper for patching just the offset part of a jump?
         if let Some(ctx) = self.loop_stack.last() {
             for &continue_jump in &ctx.continue_jumps {
+                if forloop_pos - continue_jump - 1 > i16::MAX as usize {
+                    self.jump_out_of_range = true;
+                }
                 let dist = (forloop_pos - continue_jump - 1) as i16;
                 let instr = self.current.bytecode_at(continue_jump);
                 let op = instr >> 24;
@@ -128,7 +131,7 @@ impl Compiler {
         } else {
             OpCode::ForLoopI
         };
-        let jump_back_dist = -((forloop_pos - body_start + 1) as i16);
+        let jump_back_dist = -self.jump_dist((forloop_pos - body_start + 1) as isize);
         self.emit_b(loop_opcode, iter_reg, jump_back_dist, span);
 
         if let Some(loop_ctx) = self.loop_stack.pop() {
